@@ -19,7 +19,7 @@ def gen_specs(rnd, nfields, compact=True):
         poss = [p if rnd.random() < 0.7 else None for p in rnd.sample([1, 2, 3, 4, -1, -2, -3, -4], nfields)]
         # keep python-index positions non-overlapping (builder rejects overlaps)
         idx = [p if p is None or p >= 0 else nfields + 1 + p for p in poss]
-        if len([i for i in idx if i is not None]) != len({i for i in idx if i is not None}):
+        if len([i for i in idx if i is not None]) != len({i for i in idx if i is not None}) or any(i is not None and not 1 <= i <= nfields for i in idx):
             return gen_specs(rnd, nfields, compact)
     specs = []
     for i, nm in enumerate(names):
